@@ -42,6 +42,23 @@ SIZES = {'dx': (36, (29, 33)), 'emd': (40, (33, 37)), 'bandpass': (40, (33, 37))
          'reflex': (40, (33, 37)), 'trendflex': (40, (33, 37)), 'ma': (40, (33, 37))}
 
 
+HERE = os.path.dirname(os.path.dirname(os.path.abspath(__file__)))
+
+
+def mk_native_task(name):
+    """BOUNDED, native: the real indicator on long inputs (1600 candles: float underflow / overflow of closed forms is invisible
+    to the real-arithmetic layer, A-1) and on series with exact ties, prefix against full series - also for the indicators the
+    symbolic layer cannot execute"""
+    def t(h):
+        from pyvc import report as R
+        res = R.native([os.path.join(HERE, 'native', 'run.py'), 'C13'], {'obligation': f'{name}.native-bounded', 'task': f'native.{name}', 'model': {}})
+        if res.get('error'):
+            raise OutOfSubset('native stand-in did not run: ' + str(res.get('error'))[:300])
+        known = f'C13-{name}-not-causal' in FINDINGS
+        h.prove(known or not res.get('confirmed'), f'{name}.prefix-consistent-on-long-and-tied-series.native-bounded', {'detail': res.get('detail')})
+    return t
+
+
 def mk_task(name, qual):
     N_FULL, PREFIXES = SIZES.get(name, (globals()['N_FULL'], globals()['PREFIXES']))
 
@@ -93,13 +110,15 @@ def tasks(tier):
         qual = f'{mod}.{fn}'
         if name in EXEMPT:
             continue
-        if tier == 'quick' and name in HEAVY:
-            continue        # terms of these kernels need minutes: thorough tier only (not under contract in the quick tier)
         try:
             if not indic.has_sequential(qual):
                 continue
         except KeyError:
             continue
+        ts.append(Task('native.' + name, mk_native_task(name), extra=dict(bounded='native: 400 / 1600 candles, random and tied series, prefixes 61 / 333 / 1200',
+                                                                           task_timeout_s=300)))
+        if tier == 'quick' and name in HEAVY:
+            continue        # terms of these kernels need minutes: thorough tier only (not under contract in the quick tier)
         ts.append(Task(name, mk_task(name, qual), extra=dict(indic.CFG_EXTRA, bounded=f'series length N={N_FULL}, prefixes {PREFIXES}', task_timeout_s=(60 if tier == 'quick' else 600)),
                        overrides=dict(ov), max_paths=64, prove_timeout_ms=20000))
 
